@@ -2,6 +2,7 @@
 from . import rules_tok as T
 from . import rules_reader as RD
 from . import rules_buffer as B
+from . import rules_conserve as CV
 
 PROPS = {}
 
@@ -58,3 +59,28 @@ prop('C20',
      'reported, not leaked; R20.d the queue is append-only and filled only from the iterator.',
      'returned values beyond slice bounds; the fill-loop bound (relation between cursor and queue length); '
      'wrap-around of negative peeks at position 0.')
+
+
+prop('C08',
+     [CV.r08_a, CV.r08_b, CV.r08_c, CV.r08_d, CV.r08_e, CV.t_agree, T.r19_b, T.r19_f],
+     'Linear-resource (token conservation) analysis of reader.py: every token taken from the cursor and every value '
+     'returned by a reader call is a resource; along every enumerated path (loops 0/1/2 times, callee result shapes '
+     'per constant-argument context, to a fixpoint) each resource must be stored in the tree, returned, handed to a '
+     'callee, rolled back, empty, regenerated (its kind/text pinned by a guard on the path and the node class built '
+     'there re-emits that delimiter) or be the licensed whitespace before an argument.  Plus a def-use rule on the '
+     'serialisers and agreement of the delimiter tables with the tokenizer dispatch table.',
+     'R08.a nothing consumed by the reader is dropped; R08.b closers are discarded only under their guard; R08.c a '
+     'literal-length discard matches the extent of its recogniser; R08.d no invented text except the licensed braces; '
+     'R08.e serialisers print every stored field losslessly; T delimiter literals = tokenizer texts; R19.b/f the '
+     'tokenizer emits every character in some token.',
+     'character-for-character equality of output and input; alignment of the output against the input.')
+
+prop('C01',
+     [CV.r08_a, CV.r08_b, CV.r08_d, CV.r08_e, CV.t_agree, CV.r01_a, T.r19_b, T.r19_c, T.r19_f],
+     'The conservation skeleton of C08 restricted to what a well-formed document reaches, plus raw capture of '
+     'skipped-environment bodies and rollback completeness of the tokenizer (the spacer rule restores the cursor '
+     'exactly when it emits nothing).',
+     'R08.a/b/d reader conservation; R08.e lossless serialisers; T delimiter agreement; R01.a verbatim body captured '
+     'raw and whole; R19.b/c/f tokenizer partition (includes the rollback of the spacer rule).',
+     'everything value-level: that the text of each node is exactly the slice of the source; the repository samples '
+     'and documentation examples are runtime inputs and are not touched.')
